@@ -195,3 +195,27 @@ Proof.
   - intros (Hx & Hd & Hp). split; [exact Hx|]. split; [|exact Hp].
     intros [s [[Hs|[]] Hpath]]. subst. exact (Hd Hpath).
 Qed.
+
+(* ------------------------------------------------------------------ deciding the hypotheses (for Examples) *)
+Fixpoint nodupb (l : list node) : bool :=
+  match l with [] => true | a :: r => negb (memn a r) && nodupb r end.
+
+Lemma nodupb_spec l : nodupb l = true -> NoDup l.
+Proof.
+  induction l as [|a r IH]; simpl; intros H; [constructor|].
+  apply andb_true_iff in H. destruct H as [H1 H2]. apply negb_true_iff, memn_false in H1.
+  constructor; [exact H1|apply IH; exact H2].
+Qed.
+
+Lemma wf_graph_dec g : nodupb (nodes g) && wf_graphb g = true -> wf_graph g.
+Proof.
+  intros H. apply andb_true_iff in H. destruct H as [H1 H2]. split; [apply nodupb_spec; exact H1|].
+  intros u v He. unfold wf_graphb in H2. rewrite forallb_forall in H2. specialize (H2 _ He).
+  simpl in H2. apply andb_true_iff in H2. rewrite !memn_In in H2. exact H2.
+Qed.
+
+Lemma dag_dec g : nodupb (nodes g) && wf_graphb g && acyclicb g = true -> wf_graph g /\ acyclic g.
+Proof.
+  intros H. apply andb_true_iff in H. destruct H as [H1 H2].
+  pose proof (wf_graph_dec g H1) as Hw. split; [exact Hw|]. apply (acyclicb_spec g Hw). exact H2.
+Qed.
